@@ -40,8 +40,9 @@ def run(seed, prop):
 
 def main():
     jobs = int(sys.argv[1]) if len(sys.argv) > 1 else 5
+    only = sys.argv[2:]   # optional: seed directory names to (re)run; results are merged into RESULTS.json
     seeds = sorted(d for d in os.listdir(os.path.join(HERE, 'seeded'))
-                   if os.path.exists(os.path.join(HERE, 'seeded', d, 'patch.diff')))
+                   if os.path.exists(os.path.join(HERE, 'seeded', d, 'patch.diff')) and (not only or d in only))
     tasks = []
     for s in seeds:
         tasks.append((s, s[:3]))
@@ -53,7 +54,11 @@ def main():
             print(r['seed'], r['check'], 'exit', r['exit'], 'concrete' if r['concrete_failing_input'] else '',
                   len(r['broken_obligations']), 'broken', flush=True)
             res.append(r)
-    with open(os.path.join(HERE, 'seeded', 'RESULTS.json'), 'w') as f:
+    rpath = os.path.join(HERE, 'seeded', 'RESULTS.json')
+    if only and os.path.exists(rpath):
+        old = [r for r in json.load(open(rpath)) if r['seed'] not in only]
+        res = sorted(old + res, key=lambda r: (r['seed'], r['check'] != r['seed'][:3], r['check']))
+    with open(rpath, 'w') as f:
         json.dump(res, f, indent=1)
     missed = [r for r in res if r['exit'] == 0 and r['check'] == r['seed'][:3]]
     print('missed by own check:', [r['seed'] for r in missed])
